@@ -104,6 +104,46 @@ def canon(rx, s):
     return rx.sub('$', s) if rx is not None else s
 
 
+def norm_try(t):
+    """Normal form of `?`-style unwrapping, used only for the name-free audit descriptor: `(branch(ok_or(x, e)) as Continue).0`
+    and `let Some(v) = x else { return Err(e) }` both become `(x as Some).0`; `(branch(x) as Continue).0` becomes `(x as Ok).0`."""
+    if t is None or not isinstance(t, tuple):
+        return t
+    k = t[0]
+    if k == 'field' and t[2] == '0':
+        inner = t[1]
+        if inner is not None and inner[0] == 'as' and inner[2] == 'Continue':
+            c = inner[1]
+            if c is not None and c[0] == 'call' and re.search(r'::branch$', c[1]) and len(c[2]) == 1:
+                x = c[2][0]
+                if x is not None and x[0] == 'call' and re.search(r'Option::ok_or(_else)?$', short_name(x[1])) and x[2]:
+                    return ('field', ('as', norm_try(x[2][0]), 'Some'), '0')
+                if x is not None and x[0] == 'call' and re.search(r'Result::map_err$', short_name(x[1])) and x[2]:
+                    return ('field', ('as', norm_try(x[2][0]), 'Ok'), '0')
+                return ('field', ('as', norm_try(x), 'Ok'), '0')
+    if k == 'let':
+        return norm_try(t[2])
+    if k in ('field', 'as', 'cast', 'len'):
+        return (k, norm_try(t[1])) + tuple(t[2:])
+    if k == 'discr':
+        return ('discr', norm_try(t[1]), t[2])
+    if k == 'index':
+        return ('index', norm_try(t[1]), norm_try(t[2]))
+    if k == 'slice':
+        return ('slice', norm_try(t[1])) + tuple(t[2:])
+    if k == 'call':
+        return ('call', t[1], tuple(norm_try(a) for a in t[2]), t[3])
+    if k == 'binop':
+        return ('binop', t[1], norm_try(t[2]), norm_try(t[3]))
+    if k == 'unop':
+        return ('unop', t[1], norm_try(t[2]))
+    if k == 'agg':
+        return ('agg', t[1], t[2], tuple((n, norm_try(a)) for n, a in t[3]))
+    if k == 'phi':
+        return ('phi', t[1], tuple(norm_try(a) for a in t[2]))
+    return t
+
+
 def trusted_macro(mac):
     if not mac:
         return False
@@ -143,7 +183,7 @@ def panic_sites(body):
             if msg in ('ResumedAfterReturn', 'ResumedAfterPanic', 'ResumedAfterDrop', 'Misaligned', 'NullDeref', 'InvalidEnum'):
                 continue
             ops = [S(body.operand_term(o)) for o in t['ops']]
-            cops = [canon(rx, o) for o in ops]
+            cops = [canon(rx, tstr(norm_try(expand(body.operand_term(o))))) for o in t['ops']]
             if msg == 'BoundsCheck':
                 desc = 'BoundsCheck[%s < %s]' % (ops[1], ops[0])
                 cdesc = 'BoundsCheck[%s < %s]' % (cops[1], cops[0])
@@ -159,7 +199,7 @@ def panic_sites(body):
                 if kind is None:
                     continue
                 args = [S(body.operand_term(a)) for a in t['args']]
-                cargs = [canon(rx, a) for a in args]
+                cargs = [canon(rx, tstr(norm_try(expand(body.operand_term(a))))) for a in t['args']]
                 def fmt(args):
                     if kind in ('panic', 'assert'):
                         return '%s(%s)' % (short_name(fi['def']), (args[0] if args else '')[:100])
